@@ -316,7 +316,7 @@ func generate(e *emitter, o vh.Opts) {
 	e.meta.Extra["exhaustive_alphabet_size"] = len(al)
 	e.meta.Extra["exhaustive_depth"] = depth
 	r := vh.NewRand(o.Seed)
-	nrand, nstream := 900, 300
+	nrand, nstream := 700, 250
 	if o.Thorough() {
 		nrand, nstream = 20000, 6000
 	}
